@@ -8,12 +8,19 @@ R-C18b  no narrowing before comparison: an operand of a value comparison is neve
 R-C18c  allclose runs the comparison under `with _temporary_x64(...)` (pairing itself: C13 R-C13d)
 R-C18d  _build_ort_inputs: every session input gets a feed entry or the function raises; left-over
         positional values raise
+R-C18e  the model under test is loaded on every call: each `InferenceSession(…)` reachable from
+        allclose / allclose_onnxruntime_web is constructed from the caller's path parameter, in a function
+        that is not memoised (functools.lru_cache / cache / a cache decorator) and whose session is not
+        stored in module-level state; the receiver of every `session.run(…)` derives from such a
+        construction in the same call.  A session cached by path (or path+size) answers for a *stale*
+        file after the model at that path has been re-exported
 """
 from __future__ import annotations
 
 import ast
 from typing import List, Optional, Set
 
+from ..callgraph import get_callgraph
 from ..cfg import CFG, cfg_of
 from ..flow import defuse, names_in
 from ..guards import path_conditions, src
@@ -39,7 +46,113 @@ def _is_true_return(r: ast.Return) -> bool:
     return isinstance(v, ast.Constant) and v.value is True
 
 
+CACHE_DECOS = {"lru_cache", "cache", "cached", "memoize", "memoized", "cached_property", "cachedmethod"}
+
+
+def _cache_deco(fn: ast.AST) -> Optional[str]:
+    for d in getattr(fn, "decorator_list", []):
+        t = d.func if isinstance(d, ast.Call) else d
+        nm = (dotted(t) or "").split(".")[-1]
+        if nm in CACHE_DECOS:
+            return nm
+    return None
+
+
+def rule_e(res: Results, idx: Index) -> None:
+    m = idx.module(UI)
+    cg = get_callgraph(idx)
+    roots = [idx.func(UI, "allclose"), idx.func(UI, "allclose_onnxruntime_web")]
+    reach = {}
+    for r in roots:
+        for g in cg.reachable_from(r, depth=5):
+            reach[id(g.node)] = g
+    module_names = {t.id for st in m.tree.body if isinstance(st, (ast.Assign, ast.AnnAssign)) for t in (st.targets if isinstance(st, ast.Assign) else [st.target]) if isinstance(t, ast.Name)}
+    n_sess = 0
+    builders: Set[int] = set()
+    for g in reach.values():
+        du = defuse(g.node)
+        for c in walk_no_nested(g.node):
+            if not (isinstance(c, ast.Call) and (call_name(c) or "").split(".")[-1] == "InferenceSession"):
+                continue
+            n_sess += 1
+            builders.add(id(g.node))
+            key = f"{g.module.rel}::{g.qualname}::InferenceSession"
+            site = f"{g.module.rel}:{c.lineno}"
+            deco = _cache_deco(g.node)
+            if deco:
+                res.violation("R-C18e", site, key, f"the validation session is built inside `{g.qualname}`, which is memoised with @{deco}: a later call for the same key reuses a session of the file's earlier contents, so a re-exported model is never loaded", g.qualname)
+                continue
+            a = g.node.args  # type: ignore[attr-defined]
+            pnames = {x.arg for x in a.posonlyargs + a.args + a.kwonlyargs}
+            path_arg = c.args[0] if c.args else next((k.value for k in c.keywords if k.arg in ("path_or_bytes", "path")), None)
+            if path_arg is None or not (du.closure(names_in(path_arg)) & pnames):
+                res.violation("R-C18e", site, key, f"the session is not constructed from the function's model-path parameter (`{src(path_arg) if path_arg is not None else '?'}`)", g.qualname)
+                continue
+            st = enclosing_stmt(c)
+            stored_global = False
+            globs = {n for x in walk_no_nested(g.node) if isinstance(x, ast.Global) for n in x.names}
+            if isinstance(st, ast.Assign):
+                for t in st.targets:
+                    if isinstance(t, ast.Name) and t.id in globs:
+                        stored_global = True
+                    if isinstance(t, ast.Subscript) and isinstance(t.value, ast.Name) and t.value.id in (module_names | globs) and not any(d.kind != 'setitem' for d in du.defs.get(t.value.id, [])):
+                        stored_global = True
+            if stored_global:
+                res.violation("R-C18e", site, key, "the session is stored in module-level state and can be reused for a later call", g.qualname)
+            else:
+                res.ok("R-C18e", site, key, "fresh session from the path parameter, not memoised, not stored globally", g.qualname)
+    res.analysed["inference_session_sites"] = n_sess
+    # memoised functions on the way from the entry points (file reads behind a cache are as stale as sessions)
+    for g in reach.values():
+        deco = _cache_deco(g.node)
+        if deco and id(g.node) not in builders:
+            sub = cg.reachable_from(g, depth=4)
+            reads = [x for h in sub for x in walk_no_nested(h.node) if isinstance(x, ast.Call) and (call_name(x) or "").split(".")[-1] in ("InferenceSession", "load", "load_model", "open", "read_bytes")]
+            key = f"{g.module.rel}::{g.qualname}::memoised"
+            if reads:
+                res.violation("R-C18e", f"{g.module.rel}:{g.node.lineno}", key, f"`{g.qualname}` is memoised with @{deco} and (transitively) reads the model file: the oracle can answer for stale contents", g.qualname)
+    # receivers of session.run
+    for fn_name in ("_run_allclose", "allclose_onnxruntime_web"):
+        f = idx.func(UI, fn_name)
+        du = defuse(f.node)
+        for c in walk_no_nested(f.node):
+            if not (isinstance(c, ast.Call) and isinstance(c.func, ast.Attribute) and c.func.attr == "run" and isinstance(c.func.value, ast.Name)):
+                continue
+            recv = c.func.value.id
+            if recv in ("subprocess",):
+                continue
+            key = f"{UI}::{fn_name}::run-receiver::{recv}"
+            site = f"{UI}:{c.lineno}"
+            vals = [v for v in du.values(recv) if v is not None]
+            ok_direct = [v for v in vals if isinstance(v, ast.Call) and (call_name(v) or "").split(".")[-1] == "InferenceSession"]
+            via = []
+            for v in vals:
+                if isinstance(v, ast.Call) and v not in ok_direct:
+                    callee = idx.resolve_func(m, call_name(v) or "", cls=None, scope=f)
+                    via.append((v, callee))
+            if vals and len(ok_direct) == len(vals):
+                res.ok("R-C18e", site, key, "the session that runs is the one constructed in this call", fn_name)
+            elif via and all(cal is not None and id(cal.node) in builders and not _cache_deco(cal.node) for _, cal in via) and len(via) + len(ok_direct) == len(vals):
+                res.ok("R-C18e", site, key, f"the session comes from `{via[0][1].qualname}`, a non-memoised builder", fn_name)
+            elif via and any(cal is not None and _cache_deco(cal.node) for _, cal in via):
+                cal = next(cal for _, cal in via if cal is not None and _cache_deco(cal.node))
+                res.violation("R-C18e", site, key, f"`{recv}.run` uses a session returned by the memoised `{cal.qualname}`: it may have been built from an earlier version of the file", fn_name)
+            else:
+                def _module_lookup(v: ast.AST) -> bool:
+                    for x in ast.walk(v):
+                        base = x.value if isinstance(x, ast.Subscript) else (x.func.value if isinstance(x, ast.Call) and isinstance(x.func, ast.Attribute) and x.func.attr in ("get", "setdefault", "pop") else None)
+                        if isinstance(base, ast.Name) and base.id in module_names and not any(d.kind != 'setitem' for d in du.defs.get(base.id, [])):
+                            return True
+                    return False
+                if any(_module_lookup(v) for v in vals):
+                    res.violation("R-C18e", site, key, f"`{recv}` is looked up in module-level state ({'; '.join(src(v, 40) for v in vals)}): the oracle may run a session kept from an earlier call", fn_name)
+                else:
+                    res.unresolved("R-C18e", site, key, f"provenance of `{recv}` not resolved ({'; '.join(src(v, 40) for v in vals) or 'parameter / no local definition'})", fn_name)
+
+
 def run(res: Results, idx: Index, tier: str) -> None:
+    res.rule("R-C18e", "every validation session is built afresh from the model path of the current call", floor=4)
+    rule_e(res, idx)
     res.rule("R-C18a", "count, shape and value comparisons are on every path to a match verdict, each with a False-returning failure branch", floor=4)
     res.rule("R-C18b", "no operand of a value comparison is cast to the other operand's dtype without a same-kind test", floor=2)
     res.rule("R-C18c", "allclose compares under _temporary_x64", floor=1)
